@@ -129,6 +129,14 @@ impl ContinuityStore {
         ensures r matches Ok(evs) ==> ascending(evs@) && replayed(continuity_id@, evs@),
     { unimplemented!() }
 
+    // contract of create_continuity as proved in unit c01_cont: the creation frame is in the log, the guard it took is released again -
+    // NOTHING is reserved for the caller afterwards (a caller that goes on to append a lineage frame must take the lock itself and
+    // read the counter through it)
+    #[verifier::external_body]
+    pub fn create_continuity(&self, workspace: String, continuity_id: Option<String>, title: Option<String>, set_as_default: bool) -> (ret: Result<String, String>)
+        ensures ret matches Ok(id) ==> appended(id@, 0),
+    { unimplemented!() }
+
     // contract of create_continuity_locked as proved in unit c01_cont (callers see only the contract)
     #[verifier::external_body]
     pub fn create_continuity_locked(&self, next_seq: &mut SeqGuard, workspace: String, continuity_id: Option<String>, title: Option<String>, set_as_default: bool) -> (ret: Result<String, String>)
